@@ -83,7 +83,7 @@ class PassSequence(Unit, Sequence[Unit]):
             except StopIteration:
                 raise KeyError(f"No unit with label '{key}' found.")
 
-        if isinstance(key, int) or isinstance(key, slice):
+        if isinstance(key, (int, np.integer)) or isinstance(key, slice):
             return self._subunits.__getitem__(key)
 
         raise TypeError("Key must be int, slice or str")
